@@ -110,6 +110,10 @@ type G struct {
 	Depth int
 	Tags  map[string]int
 	Avoid map[string]bool
+	// Relaxed widens G beyond the documented grammar (list minimums lowered to zero, a few clause
+	// combinations the documentation does not show). It is only used by properties that quantify
+	// over every ACCEPTED input (C01, C04, C05 ...), never where G stands for the documentation (C02, C08).
+	Relaxed bool
 	// NoWithExpr suppresses the WITH(...) expression (inside THEN RETURN, where a leading WITH
 	// is read as WITH ACTION).
 	NoWithExpr bool
@@ -189,6 +193,10 @@ func (g *G) choose(tag string, alts ...string) string {
 
 // count draws a list length in [min,max], biased to min, min+1 and 2..3.
 func (g *G) count(tag string, min, max int) int {
+	if g.Relaxed && min > 0 && rapid.IntRange(0, 5).Draw(g.T, g.label(tag+"#relaxed")) == 0 {
+		g.tag(tag + "#relaxed-0")
+		return min - 1
+	}
 	if max <= min {
 		return min
 	}
@@ -239,7 +247,13 @@ func (g *G) opt(tag string, f func() Frag) Frag {
 
 var plainNames = []string{"a", "b", "c", "t1", "_x", "Col_2", "tbl", "x", "y", "Singers", "SingerId", "n", "v1", "Albums", "z9", "T", "fld", "e"}
 
-var quotedNames = []string{"select", "from", "ORDER", "group", "a b", "1x", "x-y", "日本", "a`b", "a\\b", "", "null", "table name", "Hash", "proto", "new", "é", "a.b", "'q'", "x\ny"}
+var reservedList = func() []string {
+	l := reflex.ReservedWords()
+	sort.Strings(l)
+	return l
+}()
+
+var quotedNames = []string{"select", "", "ORDER", "", "a b", "1x", "x-y", "日本", "a`b", "a\\b", "", "", "null", "table name", "Hash", "proto", "new", "é", "a.b", "'q'", "x\ny"}
 
 var pseudoNames = []string{"value", "key", "table", "index", "options", "insert", "update", "delete", "replace", "date", "timestamp",
 	"sequence", "model", "min", "max", "row", "policy", "action", "stored", "hidden", "column", "constraint", "foreign", "check", "synonym",
@@ -263,7 +277,15 @@ func (g *G) name(pos identPos) Frag {
 	case c < 8:
 		n := quotedNames[rapid.IntRange(0, len(quotedNames)-1).Draw(g.T, g.label("name.quoted"))]
 		if n == "" {
-			n = "q"
+			// any reserved keyword of the documentation's table, in a drawn letter case
+			n = reservedList[rapid.IntRange(0, len(reservedList)-1).Draw(g.T, g.label("name.reserved"))]
+			switch rapid.IntRange(0, 2).Draw(g.T, g.label("name.reserved.case")) {
+			case 0:
+				n = strings.ToLower(n)
+			case 1:
+				n = n[:1] + strings.ToLower(n[1:])
+			}
+			g.tag("ident.reserved-keyword")
 		}
 		g.tag("ident.needs-quote")
 		return both(Lex{K: ID, V: n})
